@@ -411,6 +411,34 @@ func checkC05(c *Ctx) {
 	}
 
 	c05DropOnlyUnverified(c, "C05.12")
+	// C05.15 the evidence for the new view travels on: what advanceView hands to the next leader (NewView) or builds
+	// its own proposal from (CreateProposal) is derived from the verified sync info that caused the advance. The
+	// replica's stored sync info is not a substitute: nothing stores the timeout certificate there, so a leader that
+	// missed the timeouts of the previous view would never learn that the view ended.
+	{
+		fa := NewFlow(p, advRoot)
+		n := 0
+		var bad []string
+		for _, ds := range deepSites(fa, func(cc *ssa.CallCommon) bool {
+			return cc.IsInvoke() && cc.Method.Name() == "NewView" || cc.StaticCallee() != nil && cc.StaticCallee().Name() == "CreateProposal" && strings.HasSuffix(funcPkgPath(cc.StaticCallee()), "protocol/consensus")
+		}, 0) {
+			args := ds.Site.Common().Args
+			if len(args) == 0 {
+				continue
+			}
+			n++
+			arg := args[len(args)-1]
+			sliceEnterHelpers, sliceProg = funcPkgPath(advRoot), p
+			fromParam := backwardSlice(arg, func(x ssa.Value) bool { return len(advRoot.Params) > 1 && x == ssa.Value(advRoot.Params[1]) })
+			sliceEnterHelpers, sliceProg = "", nil
+			if !fromParam {
+				bad = append(bad, p.Pos(ds.Site.Pos())+" passes "+shortVal(ds.Args[len(ds.Args)-1]))
+			}
+		}
+		c.Check(n >= 2 && len(bad) == 0, "C05.15", "advanceView: the sync info that caused the advance is passed on", p.FuncPos(advRoot),
+			"NewView(leader, ·) and CreateProposal(·) receive a value derived from advanceView's verified sync info parameter",
+			"the next leader / the own proposal does not get the sync info that caused the advance: "+join(bad))
+	}
 	// C05.13 a leader that caught up through sync info fetches the ancestors it lacks before proposing
 	if mp := p.Method("protocol/consensus", "Proposer", "markProposed"); mp != nil {
 		getF := p.Method("security/blockchain", "Blockchain", "Get")
@@ -447,7 +475,7 @@ func checkC05(c *Ctx) {
 	// "provided client commands are available": what the clients submitted is offered to the proposer
 	c.importFrom(checkC15, "C05.14", "C15.9", "C15.2", "C15.3")
 	c.importFrom(checkC08, "C05.4", "C08.5")
-	c.importFrom(checkC08, "C05.5", "C08.3")
+	c.importFrom(checkC08, "C05.5", "C08.3", "C08.2")
 }
 
 // c05DropOnlyUnverified (C05.12, shared with C08.9): a remote timeout is dropped before its sync info is used only
